@@ -13,7 +13,8 @@ import json, os, shutil, subprocess, sys, re
 
 # wall-clock based tests of the crate that fail now and then on a loaded machine (pristine tree included)
 FLAKY = {"ops::delay::tests::shared_smoke", "ops::subscribe_on::test::thread_pool",
-         "ops::throttle::tests::smoke_for_throttle_time", "ops::merge_all::test::it_shall_merge_all"}
+         "ops::throttle::tests::smoke_for_throttle_time", "ops::merge_all::test::it_shall_merge_all",
+         "ops::delay::tests::fix_delay_op_should_delay_value_emit"}
 
 def sh(cmd, cwd=None, timeout=3600):
     p = subprocess.run(cmd, shell=True, cwd=cwd, capture_output=True, text=True, timeout=timeout)
